@@ -286,6 +286,16 @@ def _run_case_first_call(case):
                         other_values = other.transpose(truth.time_dim, truth.depth_dim, other.dims[-1]).values
                         rec.check(ref.same_values(other_values, want_values), f"{fp}/values-not-of-segment-cell",
                                   f"{label}: prepared data of a {layout} variable", want_values[0, :, :4], other_values[0, :, :4])
+                # other arrays with the same name, dimensions and shape, through the same Transect object
+                doubled = lib(transect.prepare_data_array_for_transect, ds['temp'] * 2)
+                doubled_values = doubled.transpose(truth.time_dim, truth.depth_dim, doubled.dims[-1]).values
+                rec.check(ref.same_values(doubled_values, want_values * 2), f"{fp}/values-not-of-segment-cell",
+                          f"{label}: prepared data of a second array with the same name and shape", (want_values * 2)[0, :, :4], doubled_values[0, :, :4])
+                # a range of time steps of the variable (another length of the time dimension than the dataset's)
+                part = lib(transect.prepare_data_array_for_transect, ds['temp'].isel({truth.time_dim: slice(1, 2)}))
+                part_values = part.transpose(truth.time_dim, truth.depth_dim, part.dims[-1]).values
+                rec.check(ref.same_values(part_values, want_values[1:2]), f"{fp}/values-not-of-segment-cell",
+                          f"{label}: prepared data of a range of time steps", want_values[1:2][0, :, :4], part_values[0, :, :4])
                 if len(segments) >= 3:
                     lazy = lib(transect.prepare_data_array_for_transect, ds['temp'].chunk())
                     lazy_values = lazy.transpose(truth.time_dim, truth.depth_dim, lazy.dims[-1]).values
